@@ -1,5 +1,6 @@
 import TdModel.Util
 import TdModel.Model.C01
+import TdModel.Model.C01Prog
 open TdModel TdModel.C01
 
 namespace DrvC01
@@ -62,7 +63,7 @@ def parseEvs (s : String) : Option (List Ev) :=
 def trace (b : Box) : List Op → List String
   | [] => []
   | op :: ops =>
-    let r := step b op
+    let r := stepI regenProgs b op   -- the programs regenerated from the current source, interpreted
     let b' := r.1
     s!"{b'.state}|{showGaps b'.gaps}|{showUpds b'.pending}|{if b'.armed then 1 else 0}|{showEvs r.2}" :: trace b' ops
 
@@ -82,7 +83,7 @@ def handle (line : String) : String :=
     match s0.toInt?, parseGaps gaps, parseUpds pend, ops.mapM parseOp with
     | some s0, some g, some p, some ops =>
       let b : Box := { state := s0, gaps := g, pending := p }
-      " ".intercalate (trace b ops) ++ " H=" ++ b2s (holds s0 (observe b ops))
+      " ".intercalate (trace b ops) ++ " H=" ++ b2s (holds s0 (observeI regenProgs b ops))
     | _, _, _, _ => "bad-op"
   | "holds" :: s0 :: obs =>
     match s0.toInt?, parseObs obs with
@@ -102,7 +103,7 @@ def handle (line : String) : String :=
   | ["consume", gaps, u] =>
     match parseGaps gaps, parseUpd u with
     | some g, some u =>
-      match consume g u with
+      match consumeI regenProgs.consumeBody g u with
       | some g' => showGaps g'
       | none => "none"
     | _, _ => "bad-op"
